@@ -44,6 +44,12 @@ class Sym(object):
         self.roles = roles
         self.crate = crate
         self.depth = depth
+        # call terms carry the block of the call; inside a closure evaluated from its creator the block
+        # numbers are moved out of the creator's range, so that equal terms are equal calls
+        self.bias = 0
+        if depth > 0:
+            import zlib
+            self.bias = (zlib.crc32(str(body.get("path")).encode()) % 9000 + 1) * 100000
         self._allowed = allowed
         self.defs = {}
         for bi, bb in enumerate(self.blocks):
@@ -87,8 +93,44 @@ class Sym(object):
     # -- iteration: `next(ITER) as Some .0` is "an element of what ITER runs over", whatever mixture of
     #    loops and iterator adaptors produced ITER
     def norm(self, t):
-        if t[0] == "path" and _is_call(t[1], "Iterator>::next") and t[2][:2] == (("as", "Some"), ("f", 0)):
+        if t[0] == "path" and isinstance(t[1], tuple) and len(t[1]) == 4 and t[1][0] == "call" and \
+                _re.search(r"Iterator>?::next$", t[1][1]) and t[1][3] and t[2][:2] == (("as", "Some"), ("f", 0)):
             return project(self.elem(t[1][3][0]), t[2][2:])
+        if t[0] == "path" and t[2][:2] == (("as", "Some"), ("f", 0)) and isinstance(t[1], tuple) and \
+                len(t[1]) == 4 and t[1][0] == "call":
+            p = self.payload(t[1])
+            if p is not None:
+                return project(p, t[2][2:])
+        return t
+
+    # -- Option plumbing: the payload of `it.find(p)` is an element of `it` for which p holds; `map`,
+    #    `copied`, `cloned`, `as_ref` pass it on; `map_or(d, f)` / `unwrap_or(d)` are either the default or
+    #    the payload
+    def payload(self, o):
+        if not (isinstance(o, tuple) and len(o) == 4 and o[0] == "call"):
+            return None
+        name, args = o[1], o[3]
+        if _re.search(r"Iterator>?::find$", name) and len(args) == 2:
+            e = self.elem(args[0])
+            return ("guarded", self.apply(args[1], e), e)
+        if _re.search(r"Option::(copied|cloned|as_ref|as_mut|as_deref)$", name) and len(args) == 1:
+            return self.payload(args[0]) or project(args[0], (("as", "Some"), ("f", 0)))
+        if name.endswith("Option::map") and len(args) == 2:
+            inner = self.payload(args[0]) or project(args[0], (("as", "Some"), ("f", 0)))
+            return self.apply(args[1], inner)
+        if name.endswith("Option::filter") and len(args) == 2:
+            inner = self.payload(args[0]) or project(args[0], (("as", "Some"), ("f", 0)))
+            return ("guarded", self.apply(args[1], inner), inner)
+        return None
+
+    def norm_call(self, t):
+        name, args = t[1], t[3]
+        if name.endswith("Option::map_or") and len(args) == 3:
+            inner = self.payload(args[0]) or project(args[0], (("as", "Some"), ("f", 0)))
+            return phi([args[1], self.apply(args[2], inner)])
+        if name.endswith("Option::unwrap_or") and len(args) == 2:
+            inner = self.payload(args[0]) or project(args[0], (("as", "Some"), ("f", 0)))
+            return phi([args[1], inner])
         return t
 
     def elem(self, it):
@@ -347,9 +389,10 @@ class Sym(object):
             if kind == "call":
                 c = norm_path(d.get("resp") or d["f"].get("path")) or "?"
                 if c.endswith("NFA::new_state"):
-                    out.append(("new", bi))
+                    out.append(("new", bi + self.bias))
                 else:
-                    out.append(("call", c, bi, tuple(self.operand(a, seen) for a in d["args"])))
+                    out.append(self.norm_call(("call", c, bi + self.bias,
+                                               tuple(self.operand(a, seen) for a in d["args"]))))
             else:
                 k = d["k"]
                 if k == "use":
@@ -745,7 +788,22 @@ def check_rthompson(ctx, prog):
         elif vname == "String":
             check_string_arm(ctx, sym, key, where, builder, rec, private[idx])
         elif vname == "CharSet":
-            check_charset_arm(ctx, sym, key, where, builder, rec, calls, private[idx], "add_re")
+            as_class = len(builder) == 1 and not rec and builder[0][1].endswith("::add_range_transitions")
+            if as_class:
+                # the set is handled like `#`: its class (R-CLASS) is added whole
+                m = builder[0][2][2]
+                while m[0] == "call" and (m[1].endswith("::unwrap_or_else") or m[1].endswith("::expect")
+                                          or m[1].endswith("::unwrap")) and m[3]:
+                    m = m[3][0]
+                if m[0] == "path" and m[2] in ((("as", "Ok"), ("f", 0)), (("as", "Some"), ("f", 0))):
+                    m = m[1]
+                good = builder[0][2][1] == CURRENT and builder[0][2][3] == CONT and m[0] == "call" and \
+                    m[1] == "regex_to_nfa::regex_to_range_map" and m[3] == (("param", "bindings"), ("param", "re"))
+                ctx.ob("R-THOMPSON", "CharSet: exactly one add_range_transitions(current, regex_to_range_map(bindings, "
+                       "re), cont)", good, key=key + ":shape", where=where,
+                       detail=[(c, [show(x) for x in a]) for _, c, a in builder])
+            else:
+                check_charset_arm(ctx, sym, key, where, builder, rec, calls, private[idx], "add_re")
         else:
             ctx.ob("R-THOMPSON", "variant %s of ast::Regex is known to the rule" % vname, False, key=key + ":unknown",
                    where=where, detail="a new regex form: extend lexlint/rules_thompson.py with its language")
@@ -1241,6 +1299,16 @@ def check_rclassdispatch(ctx, prog):
                 and muts[0][2][1] == ("const", 0) and muts[0][2][2] in (("const", 0x10FFFF), ("const", "'\\u{10ffff}'"))
             ctx.ob("R-CLASS", "Any: the class [0, char::MAX]", ok, key=key + ":class", where=where,
                    detail=[[show(x) for x in m[2]] for m in muts])
+        elif vname == "CharSet" and _is_call(r, "RangeMap::from_non_overlapping_sorted_ranges") and not muts:
+            # the class is built from a list prepared by the arm (sorted, coalesced); that the list is the
+            # union of the items is arithmetic over end points, which no rule of this family decides
+            deps = re_dependencies(r, sym)
+            ctx.ob("R-CLASS", "CharSet: the list the class is built from is computed from the set's own items", 
+                   any(p_ and p_[0] == ("as", "CharSet") for p_ in deps), key=key + ":class", where=where,
+                   detail=sorted(map(str, deps)))
+            ctx.notes.append("R-CLASS: CharSet builds its class from a prepared list of ranges "
+                             "(from_non_overlapping_sorted_ranges); the union of the items is not decided "
+                             "structurally, only on the witness definitions")
         elif vname == "CharSet":
             ok = is_new_map(r) and bool(muts) and all(m[1].endswith("::insert") and m[2][0] == r for m in muts)
             ctx.ob("R-CLASS", "CharSet: items are inserted into one fresh class, which is returned", ok,
@@ -1334,8 +1402,10 @@ def check_rprim(ctx, prog):
     for table, what in ((NFA_WRITERS, "writes"), (NFA_READERS, "reads")):
         for meth, field in sorted(table.items()):
             b = lex.body("nfa::NFA::" + meth)
-            if what == "reads" and b is None:
-                continue        # an accessor that was folded into its only user: nothing to cross-check
+            if b is None and (what == "reads" or meth == "add_range_transition"):
+                # an accessor that was folded into its only user, or the single-range builder that was
+                # dropped because classes are added whole (add_range_transitions): nothing to cross-check
+                continue
             if not ctx.ob("R-PRIM", "NFA::%s found" % meth, b is not None, key="R-PRIM:%s:anchor" % meth):
                 continue
             touched = state_fields_touched(b, "nfa::State::State.")
@@ -1492,6 +1562,89 @@ def check_rsubset(ctx, prog):
     ctx.floor("places in nfa_to_dfa where DFA transitions are added", len(total_sites), 4)
 
 
+FILTERING = _re.compile(r"Iterator>?::(filter|filter_map|take_while|skip_while|skip|take|step_by|map_while|"
+                        r"flat_map|flatten|zip)$")
+
+
+def registration_blocks(calls, tgt, dfa):
+    """where the new-state alternatives of a transition target are stored into the state map"""
+    out = []
+    for alt in (tgt[1] if tgt[0] == "phi" else [tgt]):
+        if _is_call(alt, "DFA::new_state") and alt[3][0] == dfa:
+            for bi, c, a in calls:
+                if (c.endswith("HashMap::insert") and len(a) == 3 and a[2] == alt) or \
+                        (c.endswith("VacantEntry::insert") and len(a) == 2 and a[1] == alt):
+                    out.append(bi)
+    return out
+
+
+def adaptors_after(pipeline, clo_name):
+    """names of the iterator adaptors applied after the one that runs closure clo_name; None if that
+    closure is not one of the pipeline's"""
+    t = pipeline
+    outside = []
+    for _ in range(16):
+        if not (isinstance(t, tuple) and len(t) == 4 and t[0] == "call" and t[3]):
+            return None
+        name, args = t[1], t[3]
+        if len(args) == 2 and isinstance(args[1], tuple) and args[1][:1] == ("agg",) and args[1][1] == clo_name:
+            return outside
+        outside.append(name)
+        t = args[0]
+    return None
+
+
+def sym_frames(sym):
+    if not hasattr(sym, "_frames"):
+        fr = {None: _Frame(sym)}
+        for clo, ch in sym.closure_children():
+            if clo[1] not in fr:
+                fr[clo[1]] = _Frame(ch)
+        sym._frames = fr
+    return sym._frames
+
+
+def locate_in(frames, bi):
+    if isinstance(bi, int):
+        return None, bi
+    if isinstance(bi, tuple) and len(bi) == 3 and bi[0] == "clo" and isinstance(bi[2], int) and bi[1] in frames:
+        return bi[1], bi[2]
+    return "?", None
+
+
+def check_emitted(ctx, sym, calls, kind, tgt, dfa, emit_bi, pipeline, where):
+    """A DFA state that is created and registered for a transition target must become the target of a
+    transition that is really added: a state registered for a piece that is then dropped is reachable
+    from nowhere, and update_backtracks' final assertion (every state visited) makes the expansion
+    panic."""
+    frames = sym_frames(sym)
+    fe, be = locate_in(frames, emit_bi)
+    for rbi in registration_blocks(calls, tgt, dfa):
+        fr, br = locate_in(frames, rbi)
+        ok = None
+        det = None
+        if br is None or be is None:
+            continue
+        if fr == fe:
+            F = frames[fr]
+            extra = sorted(s_ for s_ in set(F.cd.get(be, ())) - set(F.cd.get(br, ())) if not F.constant_branch(s_))
+            ok = not extra
+            det = {"the transition is added only if": [show(F.branch_op(s_))[:160] for s_ in extra][:4]}
+        elif fe is None and pipeline is not None and fr is not None:
+            after = adaptors_after(pipeline, fr)
+            if after is not None:
+                bad = [n for n in after if FILTERING.search(n)]
+                ok = not bad
+                det = {"adaptors applied after the closure that registers the state": bad}
+        if ok is None:
+            ctx.notes.append("R-SUBSET: %s: where the state is registered and where the transition is added are in "
+                             "different closures; 'registered implies added' not decided" % kind)
+            continue
+        ctx.ob("R-SUBSET", "%s: whenever a new state is registered for the target set, the transition to it is added "
+               "(no condition between the two drops the transition)" % kind, ok, key="R-SUBSET:%s:emitted" % kind,
+               where=where, detail=det)
+
+
 def _rsubset_on(ctx, lex, b, sym, calls, multi, seen_kinds, total_sites):
     where = b["span"]
     pops = [x for x in calls if x[1] == "std::vec::Vec::pop"]
@@ -1581,6 +1734,7 @@ def _rsubset_on(ctx, lex, b, sym, calls, multi, seen_kinds, total_sites):
             ctx.ob("R-SUBSET", "%s: the transition leaves the state being filled in" % kind,
                    a[0] == dfa and a[1] == cur, key="R-SUBSET:%s:source" % kind, where=where, detail=show(a[1]))
             X = check_target(kind, a[-1], bi)
+            check_emitted(ctx, sym, calls, kind, a[-1], dfa, bi, None, where)
             if kind == "char" and X is not None:
                 label = a[2]
                 ok = label[0] == "path" and X[0] == "path" and label[1] == X[1] and \
@@ -1605,6 +1759,8 @@ def _rsubset_on(ctx, lex, b, sym, calls, multi, seen_kinds, total_sites):
         V = m[3][0]
         items = [x[2][1] for x in calls if x[1] == "std::vec::Vec::push" and x[2][0] == V] + \
             [sym.elem(x[2][1]) for x in calls if x[1].endswith("Extend>::extend") and x[2][0] == V]
+        emit_at = [(x[0], None) for x in calls if x[1] == "std::vec::Vec::push" and x[2][0] == V] + \
+            [(x[0], x[2][1]) for x in calls if x[1].endswith("Extend>::extend") and x[2][0] == V]
         ctx.ob("R-SUBSET", "range: ranges are pushed to that vector at one place", len(items) == 1,
                key="R-SUBSET:range:push", where=where)
         for it in items:
@@ -1615,6 +1771,8 @@ def _rsubset_on(ctx, lex, b, sym, calls, multi, seen_kinds, total_sites):
                 continue
             start, end, value = it[2]
             X = check_target("range", value, bi)
+            if len(emit_at) == 1:
+                check_emitted(ctx, sym, calls, "range", value, dfa, emit_at[0][0], emit_at[0][1], where)
             ok = False
             det = None
             if X is not None and X[0] == "path" and X[2] and X[2][-1] == ("f", 2):
@@ -1718,6 +1876,7 @@ def check_rprov(ctx, prog):
 
     # collectors from the transition sites
     coll = {}
+    keys = {}
     for meth, kind in (("set_any_transition", "any"), ("set_end_of_input_transition", "eoi"),
                        ("add_char_transition", "char")):
         found = [(cl, x) for cl in sp_calls for x in cl if x[1].endswith("DFA::" + meth)]
@@ -1730,6 +1889,8 @@ def check_rprov(ctx, prog):
         for cl, x in found:
             lr = lookup_or_register([(y[0], y[1], y[2]) for y in cl], x[2][-1], x[2][0])
             Xs.add(closure_of(lr[1]) if lr is not None else None)
+            if lr is not None:
+                keys[kind] = lr[1]
         X = next(iter(Xs)) if len(Xs) == 1 else None
         if X is None:
             ctx.ob("R-PROV", "%s target is a closure" % kind, False, key="R-PROV:%s:closure" % kind, where=where)
@@ -1760,6 +1921,8 @@ def check_rprov(ctx, prog):
                 dfa_t = [x for x in cl0 if x[1].endswith("DFA::set_range_transitions")]
                 lr = lookup_or_register([(x[0], x[1], x[2]) for x in cl0], v, dfa_t[0][2][0]) if dfa_t else None
                 X_range = closure_of(lr[1]) if lr is not None else None
+                if lr is not None:
+                    keys["range"] = lr[1]
     ri = item_of(X_range) if X_range is not None else None
     ok = ri is not None and is_default(ri[0]) and ri[1] == (("f", 2),)
     ctx.ob("R-PROV", "range targets are the values of a fresh range map iterated piece by piece", ok,
@@ -1893,8 +2056,327 @@ def check_rprov(ctx, prog):
                detail={"call": c, "target": show(a[0])[:200], "NFA accessors feeding the inserted value": sorted(acc),
                        "collected sets feeding it": sorted(names[x] for x in cols)})
     ctx.floor("places where the subset construction adds states to a target set", n_mut, 4)
+    _rprov_complete(ctx, sym, blocks, dom, calls, where, coll, X_range, D_any, D_eoi, D_char, D_range, CHAR_ITEM,
+                    within, keys)
 
 
+ITER_TRANSPARENT = _re.compile(r"(IntoIterator>?::into_iter|Iterator>?::(copied|cloned|rev|peekable|by_ref|fuse)|"
+                               r"::iter|::iter_mut|::into_iter|Deref>::deref|DerefMut>::deref_mut|::as_slice|::drain|"
+                               r"Clone>::clone|::clone|Iterator>?::collect)$")
+
+
+def strip_guards(t):
+    if isinstance(t, tuple):
+        if t and t[0] == "guarded":
+            return strip_guards(t[2])
+        return tuple(strip_guards(x) if isinstance(x, (tuple, frozenset)) else x for x in t)
+    if isinstance(t, frozenset):
+        return frozenset(strip_guards(x) for x in t)
+    return t
+
+
+def guards_in(t, out):
+    if isinstance(t, tuple):
+        if t and t[0] == "guarded":
+            out.append(t[1])
+            guards_in(t[2], out)
+            return out
+        for x in t:
+            guards_in(x, out)
+    elif isinstance(t, frozenset):
+        for x in t:
+            guards_in(x, out)
+    return out
+
+
+def must_all(it, src):
+    """Iterating `it` yields every element of the collection `src` (a term without guards): `it` is src
+    behind adaptors that drop nothing, a chain with such a part, or a choice all of whose alternatives are."""
+    if (src(strip_guards(it)) if callable(src) else strip_guards(it) == src):
+        return True
+    if isinstance(it, tuple) and it and it[0] == "phi":
+        return all(must_all(a, src) for a in it[1])
+    if isinstance(it, tuple) and len(it) == 4 and it[0] == "call" and it[3]:
+        name, args = it[1], it[3]
+        if _re.search(r"Iterator>?::chain$", name) and len(args) == 2:
+            return must_all(args[0], src) or must_all(args[1], src)
+        if ITER_TRANSPARENT.search(name) and not name.startswith(("nfa::NFA::", "dfa::DFA::")):
+            return must_all(args[0], src)
+    return False
+
+
+class _Frame(object):
+    """One body (nfa_to_dfa itself, or a closure created in it and evaluated with its captures bound)
+    with its control dependences."""
+
+    def __init__(self, sym):
+        self.sym = sym
+        self.blocks = sym.blocks
+        self.cd = cfg.control_deps(self.blocks)
+        _l, self.dom, _p = cfg.natural_loops(self.blocks)
+
+    def branch_op(self, s):
+        t = self.blocks[s]["term"]
+        return self.sym.operand(t["d"]) if t["k"] == "switch" else None
+
+    def iter_elem(self, s):
+        """the element the loop (or `if let Some(x) = it.find(..)`) branching at s runs over"""
+        op = self.branch_op(s)
+        if op is None or op[0] != "discr":
+            return None
+        o = op[1]
+        if isinstance(o, tuple) and len(o) == 4 and o[0] == "call" and _re.search(r"Iterator>?::next$", o[1]):
+            return self.sym.elem(o[3][0])
+        return self.sym.payload(o)
+
+    def constant_branch(self, s):
+        """a switch on the variant of a value that this evaluator knows (an element of a literal array it
+        follows): the other edges are not taken"""
+        op = self.branch_op(s)
+        return op is not None and op[0] == "discr" and isinstance(op[1], tuple) and op[1][:1] == ("agg",) and \
+            op[1][1].startswith("adt:")
+
+    def bool_op(self, s):
+        op = self.branch_op(s)
+        if op is not None and op[0] == "un" and op[1] == "Not":
+            op = op[2]
+        return op
+
+    def on_true_side(self, s, ev):
+        """block ev runs only when the boolean tested at s is true"""
+        sw = self.blocks[s]["term"]
+        arms = sw["arms"]
+        if len(arms) != 1 or arms[0][0] != 0:
+            return False
+        op = self.branch_op(s)
+        t_tgt, f_tgt = sw["else"], arms[0][1]
+        if op is not None and op[0] == "un" and op[1] == "Not":
+            t_tgt, f_tgt = f_tgt, t_tgt
+        return t_tgt != f_tgt and t_tgt in self.dom.get(ev, ()) and f_tgt not in self.dom.get(ev, ())
+
+
+def _rprov_complete(ctx, sym, blocks, dom, calls, where, coll, X_range, D_any, D_eoi, D_char, D_range, CHAR_ITEM,
+                    within, keys):
+    """The other direction of R-PROV: nothing is left out. Each target set must receive *all* of what it
+    stands for on every way to the place where its closure is taken - an adding call that runs only under
+    some other condition, or that adds one of two alternatives, loses transitions for the inputs that
+    take the other way (the lexer then rejects, or prefers a shorter match, where a rule matches)."""
+    frames = {None: _Frame(sym)}
+    for clo, ch in sym.closure_children():
+        if clo[1] not in frames:
+            frames[clo[1]] = _Frame(ch)
+    CH = project(CHAR_ITEM, (("f", 0),))
+
+    def locate(bi):
+        """(frame id, block) of a call found by deep_calls"""
+        if isinstance(bi, int):
+            return None, bi
+        if isinstance(bi, tuple) and len(bi) == 3 and bi[0] == "clo" and isinstance(bi[2], int) and bi[1] in frames:
+            return bi[1], bi[2]
+        return "?", None
+
+    def covers(c, a, src):
+        if len(a) != 2:
+            return None
+        if c.endswith("Extend>::extend") and must_all(a[1], src):
+            return "all"
+        if _re.search(r"(HashSet::insert|BTreeSet::insert|Vec::push)$", c) and not callable(src) and \
+                strip_guards(strip_clone(a[1])) == ("elem", src):
+            return "each"
+        return None
+
+    def lookup_site(K):
+        for bi, c, a, m in calls:
+            if any(c.endswith(sfx) for sfx in LOOKUPS) and len(a) >= 2 and strip_clone(a[1]) == K:
+                fid, blk = locate(bi)
+                if blk is not None:
+                    return fid, blk
+        return None
+
+    def closure_of_any(t):
+        return _is_call(t, "NFA::compute_state_closure") and len(t[3]) == 2 and t[3][0] == ("param", "nfa") and \
+            t[3][1] == D_any
+
+    def closure_site(X):
+        for bi, c, a, m in calls:
+            if c.endswith("NFA::compute_state_closure") and len(a) == 2 and a[1] == X:
+                fid, blk = locate(bi)
+                if blk is not None:
+                    return fid, blk
+        return None
+
+    def find_cover(events, src, fid, allowed, extra_own, site, guard_ok=None):
+        """events: adding calls into the right target; one of them must add all of src with no condition
+        beyond `allowed`, its own iteration over src and what extra_own accepts. Everything is looked at
+        inside the frame fid (the body where the closure of the set is taken)."""
+        F = frames[fid]
+        tried = []
+        for bi, c, a in events:
+            efid, blk = locate(bi)
+            if efid != fid or blk is None:
+                tried.append({"call": c, "why not": "made in another closure than the one that takes the closure "
+                              "of the set"})
+                continue
+            mode = covers(c, a, src)
+            if mode is None:
+                tried.append({"call": c, "adds": show(a[1])[:160] if len(a) > 1 else None,
+                              "why not": "does not add every element of %s" % show(src)[:120]})
+                continue
+            if guard_ok is not None and not all(guard_ok(g) for g in guards_in(a[1], [])):
+                tried.append({"call": c, "why not": "the source is filtered by another condition"})
+                continue
+            deps = F.cd.get(blk, ())
+            own = [s_ for s_ in deps if mode == "each" and strip_guards(F.iter_elem(s_) or ()) == ("elem", src)]
+            rest = [s_ for s_ in deps if s_ not in allowed and s_ not in own and not extra_own(F, s_, blk)]
+            if rest:
+                tried.append({"call": c, "why not": "runs only under another condition",
+                              "conditions": [show(F.branch_op(s_))[:160] for s_ in sorted(rest)][:4]})
+                continue
+            if site is not None:
+                loops_ = own + [s_ for s_ in deps if s_ not in allowed and extra_own(F, s_, blk)]
+                before = blk in F.dom.get(site, ()) or any(s_ in F.dom.get(site, ()) for s_ in loops_)
+                if not before:
+                    tried.append({"call": c, "why not": "not done before the closure of the set is taken"})
+                    continue
+            return True, tried
+        return False, tried
+
+    def decide(key, desc, events, src, site, extra_own, guard_ok=None, alternatives=()):
+        tried = []
+        ok = False
+        for ev_, src_, site_ in ((events, src, site),) + tuple(alternatives):
+            if site_ is None:
+                continue
+            fid, blk = site_
+            ok, tr = find_cover(ev_, src_, fid, frames[fid].cd.get(blk, set()), extra_own, blk, guard_ok)
+            tried += tr
+            if ok:
+                break
+        ctx.ob("R-PROV", desc, ok, key=key, where=where, detail=None if ok else {"adding calls looked at": tried[:6]})
+        return ok
+
+    def after_closure(K):
+        """the `_` targets may also join after the closures are taken: closure(A + B) = closure(A) + closure(B),
+        so adding all of compute_state_closure(nfa, `_` targets) to the closure of the set, before the state
+        for it is looked up, is the same"""
+        if K is None:
+            return ()
+        return (([(bi, c, a) for bi, c, a in adders if a[0] == K], closure_of_any, lookup_site(K)),)
+
+    adders = [(bi, c, a) for bi, c, a, m in calls if m and a and Sym.ADDERS.search(c)]
+    # ---- stage 2: the per-character and per-range target sets
+    site_c = closure_site(coll["char"])
+    site_r = closure_site(X_range)
+    no_own = lambda F, s_, blk: False
+    if site_c is not None:
+        ev = [(bi, c, a) for bi, c, a in adders if a[0] == coll["char"]]
+        decide("R-PROV:complete:char:any", "every character's target set receives all `_` targets, whatever else "
+               "it receives", ev, D_any, site_c, no_own, alternatives=after_closure(keys.get("char")))
+        # the piece of the collected range map that contains the character
+        pieces = set()
+        for bi, c, a in ev:
+            for x in subterms(a[1] if len(a) > 1 else (), lambda y: isinstance(y, tuple) and y[:1] == ("path",) and
+                              item_of(y) is not None and item_of(y)[0] == D_range and item_of(y)[1] == (("f", 2),), []):
+                pieces.add(strip_guards(("path", x[1], x[2][:-1]) if len(x[2]) > 1 else x[1]))
+        P = next(iter(pieces)) if len(pieces) == 1 else None
+
+        def is_contains(g):
+            return _is_call(g, "Range::contains") and strip_guards(g[3][0]) == P and g[3][1] == CH
+
+        def own_piece(F, s_, blk):
+            e = F.iter_elem(s_)
+            if e is not None and strip_guards(e) == P and all(is_contains(g) for g in guards_in(e, [])):
+                return True
+            op = F.bool_op(s_)
+            return op is not None and is_contains(op) and F.on_true_side(s_, blk)
+        desc = "every character's target set receives all targets of the collected range that contains the character"
+        if P is not None:
+            decide("R-PROV:complete:char:range", desc, ev, project(P, (("f", 2),)), site_c, own_piece,
+                   guard_ok=is_contains)
+        else:
+            ctx.ob("R-PROV", desc, False, key="R-PROV:complete:char:range", where=where,
+                   detail="no adding call takes its value from a piece of the collected range map")
+    if site_r is not None:
+        ev = [(bi, c, a) for bi, c, a in adders if a[0] == X_range]
+        decide("R-PROV:complete:range:any", "every range's target set receives all `_` targets", ev, D_any, site_r,
+               no_own, alternatives=after_closure(keys.get("range")))
+    ctx.ob("R-PROV", "the places where the closures of the character and range target sets are taken are found",
+           site_c is not None and site_r is not None, key="R-PROV:complete:sites", where=where)
+
+    # ---- stage 1: collecting the NFA transitions of the members of the popped set
+    F0 = frames[None]
+
+    def is_member(t):
+        t = strip_guards(t)
+        return isinstance(t, tuple) and len(t) == 2 and t[0] == "elem" and contains(t[1], lambda x: _is_call(x, "Vec::pop"))
+    member_loops = [s_ for s_ in range(len(blocks)) if not blocks[s_]["cleanup"] and blocks[s_]["term"]["k"] == "switch"
+                    and F0.iter_elem(s_) is not None and is_member(F0.iter_elem(s_))]
+    ctx.ob("R-PROV", "the loop over the members of the popped set is found", bool(member_loops),
+           key="R-PROV:complete:members", where=where)
+    if not member_loops:
+        return
+
+    def accessor_calls(t, accessor):
+        return [strip_guards(x) for x in subterms(t, lambda y: _is_call(y, "NFA::" + accessor) and len(y[3]) == 2 and
+                                                 y[3][0] == ("param", "nfa") and is_member(y[3][1]), [])]
+
+    def decide_collect(key, desc, events, srcs_of, extra_own_of):
+        tried = []
+        for ml in member_loops:
+            allowed = set(F0.cd.get(ml, set())) | {ml}
+            for ev1 in events:
+                for src in srcs_of(ev1):
+                    ok, tr = find_cover([ev1], src, None, allowed, extra_own_of(src), None)
+                    if ok:
+                        ctx.ob("R-PROV", desc, True, key=key, where=where)
+                        return True
+                    tried += tr
+        ctx.ob("R-PROV", desc, False, key=key, where=where,
+               detail={"adding calls looked at": tried[:6] or [{"call": c, "adds": [show(x)[:120] for x in a[1:]]}
+                                                               for bi, c, a in events][:6]})
+        return False
+
+    for D, accessor, nm in ((D_any, "any_transitions", "any"), (D_eoi, "end_of_input_transitions", "eoi")):
+        ev = [(bi, c, a) for bi, c, a in adders if a[0] == D]
+        decide_collect("R-PROV:complete:collect:" + nm,
+                       "for every member of the popped set all of NFA::%s is added to the collected set" % accessor,
+                       ev, lambda e, accessor=accessor: accessor_calls(e[2][1:], accessor), lambda src: no_own)
+    # characters: filed under the transition's own character
+    ev = [(bi, c, a) for bi, c, a in adders if a[0] != D_char and within(a[0], D_char) and a[0] != coll["char"]]
+
+    def char_srcs(e):
+        return [("path", ("elem", acc), (("f", 1),)) for acc in accessor_calls(e[2], "char_transitions")]
+
+    def char_own(src):
+        E = src[1]
+        return lambda F, s_, blk: strip_guards(F.iter_elem(s_) or ()) == E
+    decide_collect("R-PROV:complete:collect:char", "for every member of the popped set all targets of every entry of "
+                   "NFA::char_transitions are added to the collected set of that character", ev, char_srcs, char_own)
+    # ranges: RangeMap::insert(start, end, targets) per NFA range
+    ok = False
+    evr = [(bi, c, a) for bi, c, a in adders if a[0] == D_range]
+    for ml in member_loops:
+        allowed = set(F0.cd.get(ml, set())) | {ml}
+        for bi, c, a in evr:
+            if not isinstance(bi, int):
+                continue
+            if c.endswith("RangeMap::insert") and len(a) >= 4:
+                for acc in accessor_calls(a[1:4], "range_transitions"):
+                    E = ("elem", acc)
+                    want = tuple(("path", E, (("f", i),)) for i in range(3))
+                    got = (strip_guards(a[1]), strip_guards(a[2]), strip_guards(strip_clone(a[3])))
+                    rest = [s_ for s_ in F0.cd.get(bi, ()) if s_ not in allowed and
+                            strip_guards(F0.iter_elem(s_) or ()) != E]
+                    if got == want and not rest and not guards_in(a[1:4], []):
+                        ok = True
+            elif c.endswith("RangeMap::insert_ranges") and len(a) >= 2:
+                for acc in accessor_calls(a[1:2], "range_transitions"):
+                    rest = [s_ for s_ in F0.cd.get(bi, ()) if s_ not in allowed]
+                    if must_all(a[1], acc) and not rest:
+                        ok = True
+    ctx.ob("R-PROV", "for every member of the popped set every NFA range transition is inserted into the collected "
+           "range map", ok, key="R-PROV:complete:collect:range", where=where,
+           detail={"adding calls looked at": [{"call": c, "adds": [show(x)[:100] for x in a[1:4]]} for bi, c, a in evr][:4]})
 
 
 # --------------------------------------------------------------------------- index shifts (R-OFFSET on terms)
